@@ -1060,11 +1060,13 @@ func writeGetDTypeFunc(w *formatting.IndentedWriter, ns *dsl.Namespace) {
 					}
 				}
 
-				fmt.Fprintf(w, "dtype_map.setdefault(%s, %s)\n", common.TypeSyntaxWithoutTypeParameters(td, contextNamespace), typeDefinitionDTypeExpression(td, context))
-
+				// The entry of the definition may look up the dtype of a union right away (a generic type
+				// instantiated with a union), so the unions used by the definition come first.
 				if !isUnion {
 					writeUnionDtypeIfNeeded(td, unions, contextNamespace)
 				}
+
+				fmt.Fprintf(w, "dtype_map.setdefault(%s, %s)\n", common.TypeSyntaxWithoutTypeParameters(td, contextNamespace), typeDefinitionDTypeExpression(td, context))
 			}
 
 			for _, p := range ns.Protocols {
